@@ -98,6 +98,7 @@ def fmtAnswer (I : Instance) : Answer → String
   | .badOp => "bad-op"
 
 def query (w : World) (ts : List String) : World × String :=
+  if ts == ["unsched_observer"] then (w, lst (fmtRefs w.cfg.I (unscheduledPure w.cfg.I w.s))) else
   match parseQuery w.cfg.I ts with
   | some q => let r := ask w.cfg w.s q; ({ w with s := r.2 }, fmtAnswer w.cfg.I r.1)
   | none => (w, "bad-op")
